@@ -44,7 +44,8 @@ def uw_one(n, be, items=None, n2=None, extra=None):
         "FullBucketsIndices::next_impl": g + 1,
         "FullBucketsIndices": g + 1,
         "RawIterRange": g + 1,
-        "fold_impl#0": g + 1, "fold_impl#1": wl + 1,
+        # fold_impl: CBMC sees its two nested loops as one (same head): groups + elements iterations
+        "RawIterRange*fold_impl": g + nn + 2,
         "RawTableInner::drop_elements": it, "RawIter": it,
         "clone_from_impl": nn + 1,
         "swap_nonoverlapping": 34,
@@ -88,8 +89,9 @@ def instances():
     # ------------------------------------------------------------------ C06 HashTable steps
     G8, S16 = ["g8"], ["s16"]
     def T(name, call, n, be=BOTH, tier="quick", n2=None, items=None, props=("C06",), **kw):
+        kw.setdefault("bounds", "N=%d buckets%s" % (n, (" -> %d" % n2) if n2 else ""))
         L.append(I(name, list(props), call, be=be, tier=tier, unwind=max(n, n2 or 0, 8) + 2,
-                   unwindset=uw(n, items=items, n2=n2), bounds="N=%d buckets%s" % (n, (" -> %d" % n2) if n2 else ""), **kw))
+                   unwindset=uw(n, items=items, n2=n2), **kw))
     C6 = ("C06", "C02", "C18")
     T("c06_find_n4", "c06::find::<4>(SYM, SYM)", 4, props=C6)
     T("c06_find_n8", "c06::find::<8>(SYM, SYM)", 8, props=C6)
@@ -97,11 +99,10 @@ def instances():
     T("c06_find_n16s", "c06::find::<16>(SYM, SYM)", 16, be=S16, tier="thorough", props=C6)
     T("c06_find_n32", "c06::find::<32>(SYM, SYM)", 32, tier="thorough", props=C6)
     T("c06_insert_n4", "c06::insert::<4, 4>(2, 0)", 4, items=2, props=C6)
-    T("c06_insert_n4_grow", "c06::insert_full::<4, 8>(3, 0)", 4, n2=8, items=3, props=C6)
+    T("c06_insert_n4_grow", "c06::insert_full::<4, 8>(3, 0)", 4, n2=8, items=3, props=C6, covers="some")
     T("c06_insert_n8", "c06::insert::<8, 8>(4, 0)", 8, items=4, props=C6)
-    T("c06_insert_n8_grow", "c06::insert_full::<8, 16>(7, 0)", 8, n2=16, items=7, props=C6)
+    T("c06_insert_n8_grow", "c06::insert_full::<8, 16>(7, 0)", 8, n2=16, items=7, props=C6, tier="thorough", timeout=7200, covers="some")
     T("c06_insert_n16", "c06::insert::<16, 16>(5, 3)", 16, be=G8, items=5, props=C6)
-    T("c06_insert_n16_rehash", "c06::insert_full::<16, 32>(3, 11)", 16, be=G8, n2=32, items=3, props=C6, timeout=1800)
     T("c06_insert_n16_grow", "c06::insert_full::<16, 32>(8, 6)", 16, be=G8, n2=32, items=8, props=C6, tier="thorough", timeout=3600)
     T("c06_remove_n4", "c06::remove_reinsert::<4>(SYM, SYM, false)", 4, props=C6, covers="some")
     T("c06_remove_n8", "c06::remove_reinsert::<8>(SYM, SYM, false)", 8, props=C6, covers="some")
@@ -112,9 +113,10 @@ def instances():
     T("c06_entry_n4", "c06::entry::<4, 4>(2, 0)", 4, items=2)
     T("c06_entry_n4_grow", "c06::entry::<4, 8>(3, 0)", 4, n2=8, items=3, covers="some")
     T("c06_entry_n8", "c06::entry::<8, 8>(4, 0)", 8, items=4)
-    T("c06_entry_n16_rehash", "c06::entry::<16, 32>(3, 11)", 16, be=G8, n2=32, items=3, timeout=1800, tier="thorough")
     T("c06_reserve_n8_grow", "c06::reserve::<8, 16>(3, 0, 5)", 8, n2=16, items=3)
-    T("c06_rehash_lay_a", "c06::rehash_layout::<16>(0x0302, 0xF0FD & !0x0302)", 16, be=G8, items=3, timeout=1500)
+    # in-place rehash with element moves needs >= 2 groups (N=16 on g8); even with concrete occupancy,
+    # ids and tags it takes > 25 min / > 14 GB: thorough tier only, generous limits (DESIGN section 12)
+    T("c06_rehash_ct8_a", "c06::rehash_layout_ct8::<16>(0x0302, 0xF0FD & !0x0302, 0)", 16, be=G8, items=3, timeout=10800, mem_gb=44, tier="thorough", cost=100)
     T("c06_shrink_n8_to4", "c06::shrink_to::<8, 4>(2, 0, 0)", 8, n2=4, items=2)
     T("c06_shrink_n8_empty", "c06::shrink_to::<8, 1>(0, 0, 0)", 8, items=0)
     T("c06_shrink_n8_empty_m3", "c06::shrink_to::<8, 4>(0, 0, 3)", 8, n2=4, items=0)
@@ -122,7 +124,7 @@ def instances():
     T("c06_clear_n8", "c06::clear::<8>()", 8)
     T("c06_iter_hash_n4", "c06::iter_hash::<4>()", 4, covers="some")
     T("c06_iter_hash_n8", "c06::iter_hash::<8>()", 8, covers="some")
-    T("c06_iter_hash_n16", "c06::iter_hash::<16>()", 16, be=G8, covers="some")
+    T("c06_iter_hash_n16", "c06::iter_hash::<16>()", 16, be=G8, covers="some", timeout=1800)
     for c in (0, 1, 3, 4, 7, 8, 14, 15, 28):
         T("c06_base_cap%d" % c, "c06::base_case::<%d>()" % c, 32, tier="quick" if c in (0, 3, 14) else "thorough", props=("C06", "C01", "C08"))
     # ------------------------------------------------------------------ C09 iterators
@@ -189,6 +191,56 @@ def instances():
     T("c03_shrink_empty_n8", "c03::ledger_resize::<8>(0, 0, 1, 0)", 8, items=0, be=G8, props=("C03", "C08"))
     T("c03_insert_grow_n4", "c03::ledger_resize::<4>(3, 0, 2, 0)", 4, n2=8, items=3, be=G8, props=("C03",))
     T("c03_no_block_when_unused", "c03::no_block_when_unused()", 4, be=ANY, props=("C03", "C08"))
+    # ------------------------------------------------------------------ C15 multi-key borrows
+    DUP = ["duplicate keys found"]
+    T("c15_table_dup_n8_k2", "c15::table_many::<8, 2>(0)", 8, props=("C15",), allow_fail=DUP, covers="some")
+    T("c15_table_dup_n8_k3", "c15::table_many::<8, 3>(0)", 8, be=G8, props=("C15",), allow_fail=DUP, covers="some")
+    T("c15_table_distinct_n8_k3", "c15::table_many::<8, 3>(1)", 8, be=G8, props=("C15",), covers="some")
+    T("c15_table_distinct_n8_k2", "c15::table_many::<8, 2>(1)", 8, be=S16, props=("C15",), covers="some")
+    T("c15_table_sloppy_n8_k2", "c15::table_many::<8, 2>(2)", 8, props=("C15", "C05"), allow_fail=DUP, covers="some")
+    T("c15_table_sloppy_n4_k3", "c15::table_many::<4, 3>(2)", 4, be=G8, props=("C15", "C05"), allow_fail=DUP, covers="some")
+    T("c15_table_dup_n16_k2", "c15::table_many::<16, 2>(0)", 16, be=G8, props=("C15",), allow_fail=DUP, covers="some", timeout=1800)
+    T("c15_table_k0_k1", "{ c15::table_many::<4, 0>(0); c15::table_many::<4, 1>(2) }", 4, be=G8, props=("C15",), covers="some")
+    T("c15_table_dup_n8_k4", "c15::table_many::<8, 4>(0)", 8, be=G8, props=("C15",), allow_fail=DUP, covers="some", tier="thorough", timeout=3600)
+    T("c15_map_dup_n8_k2", "c15::map_many::<8, 2>(false, false)", 8, be=G8, props=("C15",), allow_fail=DUP)
+    T("c15_map_distinct_n8_k3", "c15::map_many::<8, 3>(true, false)", 8, be=G8, props=("C15",))
+    T("c15_map_kv_dup_n8_k2", "c15::map_many::<8, 2>(false, true)", 8, be=G8, props=("C15",), allow_fail=DUP)
+    T("c15_map_kv_distinct_n8_k2", "c15::map_many::<8, 2>(true, true)", 8, be=S16, props=("C15",))
+    # ------------------------------------------------------------------ C12 try_reserve
+    for ty, tn in (("()", "zst"), ("u8", "u8"), ("u32", "u32"), ("[u64; 3]", "u64x3"), ("sym::Al32", "al32"), ("c12::Huge", "huge61"), ("c12::Huge60", "huge60")):
+        T("c12_overflow_all_%s" % tn, "c12::overflow_all::<%s>()" % ty, 4, props=("C12", "C17"), be=BOTH if tn in ("zst", "u32", "huge61") else G8,
+          bounds="all 2^64 values of additional; element type %s" % ty)
+    T("c12_fail_unchanged_n4_grow", "c12::fail_unchanged::<4, 8>(3, 0, 1)", 4, n2=8, items=3, be=G8, props=("C12",))
+    T("c12_fail_unchanged_n8_grow", "c12::fail_unchanged::<8, 16>(2, 0, 6)", 8, n2=16, items=2, be=G8, props=("C12",))
+    T("c12_fail_unchanged_n8_big", "c12::fail_unchanged::<8, 32>(2, 0, 20)", 8, n2=32, items=2, be=S16, props=("C12",))
+    T("c12_fail_unchanged_n8_noop", "c12::fail_unchanged::<8, 8>(3, 0, 4)", 8, items=3, be=G8, props=("C12",), covers="some")
+    # ------------------------------------------------------------------ C08 / C13 capacity contract, churn
+    T("c08_no_alloc_insert_n4", "c08::no_alloc_insert::<4>(2, 0)", 4, items=2, props=("C08", "C13"))
+    T("c08_no_alloc_insert_n8", "c08::no_alloc_insert::<8>(6, 0)", 8, items=6, be=G8, props=("C08", "C13"))
+    T("c08_no_alloc_insert_n16", "c08::no_alloc_insert::<16>(5, 8)", 16, items=5, be=G8, props=("C08", "C13"))
+    for (n, it, m) in ((8, 2, 0), (8, 0, 0), (8, 0, 3), (8, 5, 2), (16, 2, 5), (16, 0, 7), (16, 9, 100)):
+        T("c08_shrink_n%d_i%d_m%d" % (n, it, m), "c08::shrink_contract::<%d>(%d, 0, %d)" % (n, it, m), n, items=it, be=G8 if (n, it, m) != (8, 2, 0) else BOTH, props=("C08",))
+    T("c13_growth_bound_all", "c08::growth_bound_all()", 4, props=("C13", "C08"), bounds="all tables 2^2..2^55 buckets, all item counts, all element sizes")
+    # ------------------------------------------------------------------ C05 broken Hash/Eq
+    for op, on in enumerate(("find", "remove", "insert", "entry", "retain", "iter_hash")):
+        T("c05_%s_n8" % on, "c05::chaos::<8, 8>(3, 0, %d, 0)" % op, 8, items=3, props=("C05", "C02"), be=G8 if on in ("entry", "retain") else BOTH)
+    T("c05_insert_n4_grow", "c05::chaos::<4, 8>(3, 0, 2, 0)", 4, n2=8, items=3, be=G8, props=("C05", "C02"))
+    T("c05_reserve_n8_grow", "c05::chaos::<8, 16>(2, 0, 6, 6)", 8, n2=16, items=2, be=G8, props=("C05", "C02"))
+    T("c05_find_n16", "c05::chaos::<16, 16>(4, 6, 0, 0)", 16, items=4, be=G8, props=("C05",))
+    T("c05_remove_n16", "c05::chaos::<16, 16>(4, 6, 1, 0)", 16, items=4, be=G8, props=("C05",))
+    T("c05_insert_n16", "c05::chaos::<16, 16>(4, 6, 2, 0)", 16, items=4, be=G8, props=("C05",))
+    # ------------------------------------------------------------------ C04 panics
+    T("c04_hasher_grow_nodrop_n4", "c04::hasher_panic_nodrop::<4, 8>(0b0111, 0, 1, 0)", 4, n2=8, items=3, props=("C04", "C02"), be=G8)
+    T("c04_hasher_grow_nodrop_n8", "c04::hasher_panic_nodrop::<8, 16>(0b00010010, 0, 6, 1)", 8, n2=16, items=2, props=("C04", "C02"))
+    T("c04_hasher_grow_drop_n8", "c04::hasher_panic_drop::<8, 16>(0b00100100, 0, 6, 0)", 8, n2=16, items=2, props=("C04", "C03"), be=G8)
+    T("c04_hasher_shrink_drop_n8", "c04::hasher_panic_drop::<8, 4>(0b00100100, 0, 0, 0)", 8, n2=4, items=2, props=("C04",), be=G8, covers="some")
+    for (nt, ns) in ((8, 8), (8, 4), (4, 8), (8, 1)):
+        T("c04_clone_from_panic_%d_%d" % (nt, ns), "c04::clone_from_panic::<%d, %d>()" % (nt, ns), max(nt, ns), be=G8, props=("C04", "C11", "C03"), covers="some" if ns == 1 else "all")
+    for w, wn in enumerate(("clear", "drop", "drain", "into_iter", "retain", "shrink0")):
+        T("c04_drop_panic_%s_n8" % wn, "c04::drop_panic::<8>(%d)" % w, 8, be=G8, props=("C04", "C03"), covers="some")
+    T("c04_predicate_validity_retain_n8", "c04::predicate_time_validity::<8>(false)", 8, be=G8, props=("C04",))
+    T("c04_predicate_validity_extract_n8", "c04::predicate_time_validity::<8>(true)", 8, be=G8, props=("C04",))
+    T("c04_replace_entry_validity_n8", "c04::replace_entry_with_validity::<8>()", 8, be=G8, props=("C04", "C14"))
     return L
 
 
